@@ -81,6 +81,11 @@ var (
 	current func(idx int, legacy bool, body []byte) (status int, resp []byte, drop bool)
 )
 
+// statusHang tells the authority's handler to hold the request open without answering.
+const statusHang = -1
+
+var hangBehaviour = behaviour{"hang-until-client-timeout", false}
+
 func urlTime(idx int) time.Time { return baseTime.Add(time.Duration(idx) * time.Hour) }
 
 func startAuthority() *httptest.Server {
@@ -93,6 +98,14 @@ func startAuthority() *httptest.Server {
 		f := current
 		srvMu.Unlock()
 		status, resp, drop := f(idx, legacy, body)
+		if status == statusHang {
+			// never answers: the request ends when the client gives up
+			select {
+			case <-r.Context().Done():
+			case <-time.After(60 * time.Second):
+			}
+			return
+		}
 		if drop {
 			if hj, ok := w.(http.Hijacker); ok {
 				conn, _, _ := hj.Hijack()
@@ -107,6 +120,9 @@ func startAuthority() *httptest.Server {
 
 // answer builds the authority's reply for one behaviour.
 func answer(b behaviour, idx int, legacy bool, body []byte) (int, []byte, bool) {
+	if b.Name == hangBehaviour.Name {
+		return statusHang, nil, false
+	}
 	t := urlTime(idx)
 	if legacy {
 		sigValue, err := tsa.LegacyQuery(body)
@@ -198,6 +214,14 @@ type attachPath struct {
 	InName  string
 	Flags   url.Values
 	Legacy  bool
+	Key     string // "" = rsaA
+}
+
+func (p attachPath) key() string {
+	if p.Key != "" {
+		return p.Key
+	}
+	return "rsaA"
 }
 
 var paths = []attachPath{
@@ -206,6 +230,10 @@ var paths = []attachPath{
 	{Name: "appmanifest(rfc3161)", SigType: "appmanifest", Input: "WindowsFormsApplication1.exe.manifest", InName: "in.exe.manifest", Flags: url.Values{"rfc3161-timestamp": {"true"}}},
 	{Name: "appmanifest(legacy)", SigType: "appmanifest", Input: "WindowsFormsApplication1.exe.manifest", InName: "in.exe.manifest", Flags: url.Values{"rfc3161-timestamp": {"false"}}, Legacy: true},
 	{Name: "vsix", SigType: "vsix", Input: "VSIXProject1.vsix", InName: "in.vsix"},
+	// ECDSA: the XML SignatureValue is r||s, not the DER form the key produces
+	{Name: "appmanifest(rfc3161,ecdsa)", SigType: "appmanifest", Input: "WindowsFormsApplication1.exe.manifest", InName: "in.exe.manifest", Flags: url.Values{"rfc3161-timestamp": {"true"}}, Key: "p256A"},
+	{Name: "vsix(ecdsa)", SigType: "vsix", Input: "VSIXProject1.vsix", InName: "in.vsix", Key: "p256A"},
+	{Name: "ps(authenticode-oid,ecdsa)", SigType: "ps", Input: "hello.ps1", InName: "in.ps1", Key: "p256A"},
 }
 
 func topRelicFrames(stack string) string {
@@ -232,23 +260,40 @@ func copyFile(src, dst string) []byte {
 	return b
 }
 
-func signPhase(srv *httptest.Server, dir string) {
+// signPhase explores authority answer sequences. With hang set, the alphabet is
+// {valid, http-500, never answers} under a 1 s client timeout: an authority
+// that holds the connection open is one more unacceptable answer, and the
+// caller's own context is still live when the client gives up on it.
+func signPhase(srv *httptest.Server, dir string, hang bool) {
 	nurlsList := []int{1, 2}
 	if run.Thorough() {
 		nurlsList = []int{1, 2, 3}
 	}
-	for _, p := range paths {
+	usePaths := paths
+	if hang {
+		nurlsList = nurlsList[1:]
+		usePaths = nil
+		for _, p := range paths {
+			if p.Name == "ps(authenticode-oid)" || p.Legacy {
+				usePaths = append(usePaths, p)
+			}
+		}
+	}
+	for _, p := range usePaths {
 		for _, nurls := range nurlsList {
 			cfg := relicx.BaseConfig("file")
-			cfg.Keys["rsaA"].Timestamp = true
+			cfg.Keys[p.key()].Timestamp = true
 			cfg.Timestamp = &config.TimestampConfig{Timeout: 10}
+			if hang {
+				cfg.Timestamp.Timeout = 1
+			}
 			for i := 0; i < nurls; i++ {
 				cfg.Timestamp.URLs = append(cfg.Timestamp.URLs, fmt.Sprintf("%s/u%d", srv.URL, i))
 				cfg.Timestamp.MsURLs = append(cfg.Timestamp.MsURLs, fmt.Sprintf("%s/ms%d", srv.URL, i))
 			}
 			relicx.Use(cfg)
 			bridge.ResetTimestamper()
-			tok, err := relicx.OpenTokenByKey(cfg, "rsaA")
+			tok, err := relicx.OpenTokenByKey(cfg, p.key())
 			if err != nil {
 				panic(err)
 			}
@@ -262,6 +307,9 @@ func signPhase(srv *httptest.Server, dir string) {
 						alphabet = append(alphabet, b)
 					}
 				}
+			}
+			if hang {
+				alphabet = []behaviour{behaviours[0], {"http-500", false}, hangBehaviour}
 			}
 			st := mc.Explore(mc.Options{MaxDeviations: -1}, func(c *mc.Ctx) {
 				var seq []string
@@ -292,7 +340,7 @@ func signPhase(srv *httptest.Server, dir string) {
 							panicked = fmt.Sprintf("%v\n%s", r, topRelicFrames(string(buf[:n])))
 						}
 					}()
-					serr = relicx.SignStandalone(cfg, tok, relicx.SignReq{SigType: p.SigType, Key: "rsaA", Hash: crypto.SHA256, Flags: flags, In: in, Out: out})
+					serr = relicx.SignStandalone(cfg, tok, relicx.SignReq{SigType: p.SigType, Key: p.key(), Hash: crypto.SHA256, Flags: flags, In: in, Out: out})
 				}()
 				run.Eval(1)
 				desc := fmt.Sprintf("%s, %d url(s), authorities answered [%s]", p.Name, nurls, strings.Join(seq, " "))
@@ -336,6 +384,11 @@ func signPhase(srv *httptest.Server, dir string) {
 				if want >= 0 {
 					if len(seq) != want+1 {
 						run.Violation("ts-sign:request-after-acceptable-answer:"+p.Name, desc, replay)
+					}
+					if serr != nil && hang && asked[want] > 0 {
+						// the healthy authority was reached but the 1 s client timeout expired on it too (loaded machine): no verdict
+						run.Capped("hang scenarios: a healthy authority's answer missed the 1 s client timeout; that sequence was not judged")
+						return
 					}
 					if serr != nil {
 						key := "ts-sign:fails-despite-acceptable-authority:" + p.Name
@@ -382,7 +435,11 @@ func signPhase(srv *httptest.Server, dir string) {
 			})
 			run.AddStates(st.Executions)
 			run.AddTransitions(st.ChoicePoints)
-			run.Set(fmt.Sprintf("sign_sequences:%s:%d-urls", p.Name, nurls), st.Executions)
+			label := "sign_sequences"
+			if hang {
+				label = "sign_sequences_with_hanging_authority"
+			}
+			run.Set(fmt.Sprintf("%s:%s:%d-urls", label, p.Name, nurls), st.Executions)
 		}
 	}
 }
@@ -414,9 +471,9 @@ func verifyPhase(dir string) {
 	root := pemCerts(filepath.Join(kd, "root.crt"))[0]
 	rsaA := tsa.LoadKey(filepath.Join(kd, "rsaA.key"))
 	type leafT struct {
-		name      string
-		cert      *x509.Certificate
-		nb, na    time.Time
+		name   string
+		cert   *x509.Certificate
+		nb, na time.Time
 	}
 	var leaves []leafT
 	for _, n := range []string{"rsaA.leaf.crt", "rsaA.expired.crt", "rsaA.future.crt"} {
@@ -470,10 +527,10 @@ func verifyPhase(dir string) {
 	pool := x509.NewCertPool()
 	pool.AddCert(root)
 	type variant struct {
-		name     string
-		has      bool
-		grafted  bool
-		authOID  bool
+		name    string
+		has     bool
+		grafted bool
+		authOID bool
 	}
 	variants := []variant{{name: "none"}, {name: "valid", has: true}, {name: "valid(authenticode-oid)", has: true, authOID: true}, {name: "grafted-from-other-signature", has: true, grafted: true}}
 	for _, lf := range leaves {
@@ -577,10 +634,11 @@ func main() {
 	defer os.RemoveAll(dir)
 	srv := startAuthority()
 	defer srv.Close()
-	signPhase(srv, dir)
+	signPhase(srv, dir, false)
+	signPhase(srv, dir, true)
 	verifyPhase(dir)
-	run.Rule("sign side: every sequence of authority behaviours (16 for RFC 3161, 9 for the legacy protocol) over 1-2 (thorough 3) configured URLs, explored as a choice tree that ends at the first acceptable answer, x 5 attach paths, through the real pipeline and HTTP client against a loopback authority; verify side: 3 leaf validity windows x {no token, valid token under either OID, token grafted from another signature} x 4 authorities x 7 attested times. states = executions; distinct_nontrivial = sign sequences with >=2 requests + verify cases")
+	run.Rule("sign side: every sequence of authority behaviours (16 for RFC 3161, 9 for the legacy protocol) over 1-2 (thorough 3) configured URLs, explored as a choice tree that ends at the first acceptable answer, x 8 attach paths (5 with an RSA key, 3 with ECDSA P-256), through the real pipeline and HTTP client against a loopback authority; verify side: 3 leaf validity windows x {no token, valid token under either OID, token grafted from another signature} x 4 authorities x 7 attested times. states = executions; distinct_nontrivial = sign sequences with >=2 requests + verify cases. Hanging authorities: every sequence over {valid, http-500, never answers} for 2 (thorough 3) URLs under a 1 s client timeout, on one RFC 3161 and the legacy path")
 	run.Assume("acceptable = status granted / granted-with-mods, nonce echoed, imprint (algorithm and value) equal to the digest of this signature value, token signature valid under the embedded authority certificate")
-	run.Assume("the authority's tokens are built by verif/tsa (validated against `openssl ts -verify` at development time); hanging authorities are not in the alphabet (they cost real seconds)")
+	run.Assume("the authority's tokens are built by verif/tsa (validated against `openssl ts -verify` at development time); a hanging authority holds the request open until the client's own timeout (1 s, the smallest configurable) closes it: the only real-time wait in this check; when a healthy authority misses that timeout too the sequence is reported as not judged, never as a violation")
 	run.Finish()
 }
